@@ -134,7 +134,16 @@ struct ChunkSummary {
     keys: Vec<u64>,
     outcomes: BTreeMap<String, u64>,
     counters: BTreeMap<String, u64>,
+    /// failing cases that have at least one clause not covered by an open known finding (all failing cases
+    /// when VERIF_DUMP_FAILS is set); cases whose every failing clause is a known finding are only counted
     failing: Vec<(u64, CaseOut)>,
+    #[serde(default)]
+    failing_total: u64,
+    #[serde(default)]
+    clause_counts: BTreeMap<String, u64>,
+    /// known-finding id -> (failing clauses matched, first example)
+    #[serde(default)]
+    known_counts: BTreeMap<String, (u64, Value)>,
     samples: Vec<(u64, Value)>,
     matcher_hits: BTreeMap<String, (u64, u64)>,
 }
@@ -203,6 +212,7 @@ pub fn worker_main(prop: Arc<dyn Prop>, tier: Tier, from: u64, to: u64, step: bo
 fn worker_loop(prop: Arc<dyn Prop>, tier: Tier, from: u64, to: u64, step: bool, t0: Instant) {
     let chunk = if step { 1 } else { prop.chunk(tier) };
     let known = load_known();
+    let dump_all = std::env::var("VERIF_DUMP_FAILS").is_ok();
     let mut i = from;
     while i < to {
         let end = (i + chunk).min(to);
@@ -259,7 +269,26 @@ fn worker_loop(prop: Arc<dyn Prop>, tier: Tier, from: u64, to: u64, step: bool, 
                 s.samples.push((idx, out.repr.clone()));
             }
             if !out.fails.is_empty() {
-                s.failing.push((idx, out));
+                s.failing_total += 1;
+                let mut all_known = true;
+                for f in &out.fails {
+                    *s.clause_counts.entry(f.clause.clone()).or_default() += 1;
+                    let m = if f.clause == "harness_panic" {
+                        None
+                    } else {
+                        known.iter().find(|k| k.property == prop.id() && k.is_open() && k.clause_matches(&f.clause) && k.tags_match(&out.tags))
+                    };
+                    match m {
+                        Some(k) => {
+                            let e = s.known_counts.entry(k.id.clone()).or_insert((0, out.repr.clone()));
+                            e.0 += 1;
+                        }
+                        None => all_known = false,
+                    }
+                }
+                if !all_known || dump_all {
+                    s.failing.push((idx, out));
+                }
             }
         }
         println!("C {}", serde_json::to_string(&s).unwrap());
@@ -341,6 +370,10 @@ pub fn load_known() -> Vec<Known> {
 // ---------------------------------------------------------------- driver
 
 struct Agg {
+    failing_total: u64,
+    clause_counts: BTreeMap<String, u64>,
+    known_counts: BTreeMap<String, (u64, Value)>,
+    unlisted_dropped: u64,
     n: u64,
     keys: HashSet<u64>,
     outcomes: BTreeMap<String, u64>,
@@ -406,9 +439,20 @@ fn run_worker(
                         e.0 += v.0;
                         e.1 += v.1;
                     }
-                    if a.failing.len() < 100_000 {
-                        a.failing.extend(s.failing);
+                    a.failing_total += s.failing_total;
+                    for (k, v) in s.clause_counts {
+                        *a.clause_counts.entry(k).or_default() += v;
                     }
+                    for (k, v) in s.known_counts {
+                        let e = a.known_counts.entry(k).or_insert((0, v.1));
+                        e.0 += v.0;
+                    }
+                    // cases with an unlisted failing clause are all counted; their descriptions are kept up to a cap
+                    let room = 200_000usize.saturating_sub(a.failing.len());
+                    if s.failing.len() > room {
+                        a.unlisted_dropped += (s.failing.len() - room) as u64;
+                    }
+                    a.failing.extend(s.failing.into_iter().take(room));
                     if a.samples.len() < 6 {
                         a.samples.extend(s.samples);
                     }
@@ -536,6 +580,10 @@ pub fn run_single(prop: &dyn Prop, tier: Tier, idx: u64) -> (Vec<Fail>, Value, V
 
 fn new_agg() -> Agg {
     Agg {
+        failing_total: 0,
+        clause_counts: BTreeMap::new(),
+        known_counts: BTreeMap::new(),
+        unlisted_dropped: 0,
         n: 0,
         keys: HashSet::new(),
         outcomes: BTreeMap::new(),
@@ -604,7 +652,7 @@ pub fn driver_main(prop: Arc<dyn Prop>, tier: Tier) -> i32 {
             CaseOut {
                 key: *idx,
                 nontrivial: true,
-                outcome: "crash".into(),
+                outcome: "__process_crash".into(),
                 fails: vec![Fail {
                     clause: prop.crash_clause().into(),
                     detail: st.clone(),
@@ -627,19 +675,19 @@ pub fn driver_main(prop: Arc<dyn Prop>, tier: Tier) -> i32 {
         }
         let _ = std::fs::write(p, o);
     }
-    // classify
-    let mut clause_counts: BTreeMap<String, u64> = BTreeMap::new();
-    for (_, out) in &agg.failing {
-        for f in &out.fails {
-            *clause_counts.entry(f.clause.clone()).or_default() += 1;
-        }
-    }
-    let mut known_hits: BTreeMap<String, (u64, Value)> = BTreeMap::new();
+    // classify. Workers have already counted every failing clause and every clause covered by an open known
+    // finding; only cases with an unlisted clause (and crashes, which the driver adds) reach this point in full.
+    let mut clause_counts: BTreeMap<String, u64> = agg.clause_counts.clone();
+    let mut known_hits: BTreeMap<String, (u64, Value)> = agg.known_counts.clone();
     let mut violations: Vec<(u64, CaseOut, Vec<Fail>)> = vec![];
     let mut harness_panics = 0u64;
     for (idx, out) in &agg.failing {
+        let from_driver = out.outcome == "__process_crash";
         let mut unknown = vec![];
         for f in &out.fails {
+            if from_driver {
+                *clause_counts.entry(f.clause.clone()).or_default() += 1;
+            }
             if f.clause == "harness_panic" {
                 harness_panics += 1;
                 agg.machinery
@@ -651,10 +699,12 @@ pub fn driver_main(prop: Arc<dyn Prop>, tier: Tier) -> i32 {
             });
             match m {
                 Some(k) => {
-                    let e = known_hits
-                        .entry(k.id.clone())
-                        .or_insert((0, out.repr.clone()));
-                    e.0 += 1;
+                    if from_driver {
+                        let e = known_hits
+                            .entry(k.id.clone())
+                            .or_insert((0, out.repr.clone()));
+                        e.0 += 1;
+                    }
                 }
                 None => unknown.push(f.clone()),
             }
@@ -663,6 +713,8 @@ pub fn driver_main(prop: Arc<dyn Prop>, tier: Tier) -> i32 {
             violations.push((*idx, out.clone(), unknown));
         }
     }
+    let failing_total = agg.failing_total + crashes.len() as u64;
+    let unlisted_total = violations.len() as u64 + agg.unlisted_dropped;
     let _ = harness_panics;
 
     // confirm the first few violations in fresh processes (determinism of the verdict)
@@ -768,9 +820,9 @@ pub fn driver_main(prop: Arc<dyn Prop>, tier: Tier) -> i32 {
         "known_finding_matchers".into(),
         json!(agg.matcher_hits.iter().map(|(k, v)| json!({"id": k, "cases_matching_tags": v.0, "of_which_fail_with_signature": v.1})).collect::<Vec<_>>()),
     );
-    coverage.insert("failing_cases_total".into(), json!(agg.failing.len()));
+    coverage.insert("failing_cases_total".into(), json!(failing_total));
     coverage.insert("failing_clause_counts".into(), json!(clause_counts));
-    coverage.insert("unlisted_failing_cases".into(), json!(violations.len()));
+    coverage.insert("unlisted_failing_cases".into(), json!(unlisted_total));
     coverage.insert("nondeterministic_verdicts".into(), json!(nondet));
     coverage.insert("machinery_issues".into(), json!(agg.machinery));
     coverage.insert("vacuity_issues".into(), json!(vac));
@@ -782,7 +834,7 @@ pub fn driver_main(prop: Arc<dyn Prop>, tier: Tier) -> i32 {
         "coverage": Value::Object(coverage),
         "assumptions": descr.assumptions,
         "wall_s": wall,
-        "violations": violations.len(),
+        "violations": unlisted_total,
     });
     let edir = root.join("evidence");
     let _ = std::fs::create_dir_all(&edir);
@@ -800,9 +852,9 @@ pub fn driver_main(prop: Arc<dyn Prop>, tier: Tier) -> i32 {
         agg.n,
         agg.keys.len(),
         agg.outcomes.len(),
-        agg.failing.len(),
+        failing_total,
         known_hits.values().map(|v| v.0).sum::<u64>(),
-        violations.len(),
+        unlisted_total,
         wall
     );
     if !clause_counts.is_empty() {
